@@ -6,6 +6,7 @@ package props
 // statement, compared with the trace recorded by instrumented closures, on two evaluations.
 
 import (
+	"unicode/utf8"
 	"errors"
 	"fmt"
 	"runtime"
@@ -436,7 +437,7 @@ const c20Rule = "chains over the checker API: (a) every sequence of the 21 step 
 
 func genC20Step(t *rapid.T) C20Step {
 	s := C20Step{Kind: rapid.IntRange(0, 7).Draw(t, "kind")}
-	str := rapid.OneOf(rapid.Just(""), rapid.StringMatching(`[a-z ]{0,12}`), rapid.StringMatching(`[a-zA-Z/:. ]{1,12}`), rapid.SampledFrom([]string{"/", "https://idp.example/saml/SSO", "https://idp.example/saml/SSO/", " ", "a//", "\x00", "é"}))
+	str := rapid.OneOf(rapid.Just(""), rapid.StringMatching(`[a-z ]{0,12}`), rapid.StringMatching(`[a-zA-Z/:. ]{1,12}`), rapid.SampledFrom([]string{"/", "https://idp.example/saml/SSO", "https://idp.example/saml/SSO/", " ", "a//", "\x00", "é", "日本語", "üüüü", "𝄞𝄞", "naïve café", "\xff\xfe", "e\u0301"}))
 	s.PanicCB = rapid.IntRange(0, 5).Draw(t, "panic-in-callback") == 0
 	s.TypedNil = rapid.IntRange(0, 3).Draw(t, "typednil") == 0
 	s.Reenter = (s.Kind == kLogic || s.Kind == kValueStep || s.Kind == kCondLogic) && rapid.IntRange(0, 3).Draw(t, "reenter") == 0
@@ -449,6 +450,14 @@ func genC20Step(t *rapid.T) C20Step {
 		s.Value = str.Draw(t, "value")
 		s.Min = rapid.IntRange(0, 14).Draw(t, "min")
 		s.Max = rapid.IntRange(0, 14).Draw(t, "max")
+		if n, r := len(s.Value), utf8.RuneCountInString(s.Value); n != r && rapid.Bool().Draw(t, "between-counts") {
+			// a bound between the number of characters and the number of bytes: the documented length is len(), bytes
+			if rapid.Bool().Draw(t, "which-bound") {
+				s.Min, s.Max = rapid.IntRange(r+1, n).Draw(t, "min-between"), 0
+			} else {
+				s.Min, s.Max = 0, rapid.IntRange(r, n-1).Draw(t, "max-between")
+			}
+		}
 	case kEquals:
 		s.Value = str.Draw(t, "value")
 		switch rapid.IntRange(0, 3).Draw(t, "same") {
